@@ -5,7 +5,7 @@ import sys
 
 from . import common
 
-K_PROPS = {"C04", "C02", "C05", "C06", "C07", "C08", "C09", "C10", "C11", "C12", "C13", "C14"}
+K_PROPS = {"C04", "C02", "C05", "C06", "C07", "C08", "C09", "C10", "C11", "C12", "C13", "C14", "C17"}
 
 
 def main():
